@@ -330,6 +330,7 @@ def shard_history(ctx, arg):
             g.add_edge(p, nd)
             succ[p].add(nd)
         removed = []
+        state_keep = []     # unfinished iterators stay alive (not garbage collected) while the graph is used on
         for step in range(rng.randint(1, 10)):
             r = rng.random()
             if r < 0.2:
@@ -359,6 +360,20 @@ def shard_history(ctx, arg):
                     succ[u].discard(nd)
                 removed.append((nd, preds))
                 hist.append(("remove", nd.name))
+            elif r < 0.8:
+                # a traversal that is not run to its end (a caller leaving `for n in g.post_order()` early, zip() over two walks): no effect on later answers
+                k = rng.randrange(0, len(nodes))
+                try:
+                    it = g.post_order()
+                    for _ in range(k):
+                        next(it, None)
+                    if rng.random() < 0.5:
+                        it.close()
+                    state_keep.append(it)
+                except Exception:
+                    pass
+                hist.append(("walk-left-after-%d-nodes" % k,))
+                ctx.count("history_partial_walks")
             else:
                 hist.append(("renumber",))
             # only rooted graphs are in C19's domain
